@@ -2,6 +2,7 @@ package rules
 
 import (
 	"fmt"
+	"strconv"
 	"strings"
 
 	"github.com/wader/gojq"
@@ -438,7 +439,7 @@ func c17SingleKeyObj(q *gojq.Query) (string, *gojq.Query) {
 // C17.inputs
 
 func c17Inputs(m *c17Model) {
-	ru := m.r.Rule("C17.inputs", "input/_input: break on empty list, pop head before opening, open and decode each in their own try whose handler records into the class specific memory keyed by the file name, prints, and continues with the next input; the continuation's results bypass f (tagged and selected, or nothing follows) and f is applied to the opened value only; inputs = _repeat_break(input)", 30)
+	ru := m.r.Rule("C17.inputs", "input/_input: break on empty list, pop head before opening, open and decode each in their own try whose handler records into the class specific memory keyed by the file name, prints, and continues with the next input; the continuation's results bypass f (tagged and selected, or nothing follows) and f is applied to the opened value only; inputs = _repeat_break(input); _input_filename cleared before and set after open", 32)
 	in := m.def(ru, "input", 0)
 	if in == nil {
 		return
@@ -846,4 +847,221 @@ func c17Inputs(m *c17Model) {
 	if fd := m.def(ru, "input_filename", 0); fd != nil {
 		ru.Check(fw.JQIsCall(fd.Def.Body, "_input_filename", 0) != nil, "input_filename", c17Pos(fd), "_input_filename", "input_filename does not read _input_filename")
 	}
+	c17InputFilenameReset(m, ru)
+}
+
+// ---------------------------------------------------------------------------
+// C17.rawinput: -R / --raw-input line mode (jq: all inputs concatenated, exactly one final
+// newline stripped, split at "\n"; with --slurp one string)
+
+func c17RawInput(m *c17Model) {
+	ru := m.r.Rule("C17.rawinput", "raw input mode (_input_string): chunks of all inputs are joined, exactly one trailing \"\\n\" is removed (rtrimstr(\"\\n\")) and the text is split at \"\\n\"; lines are handed out head first with the tail stored back, an exhausted list breaks; --slurp yields the joined text once", 7)
+	in := m.def(ru, "input", 0)
+	if in == nil {
+		return
+	}
+	d := m.nested(ru, in, "_input_string", 1)
+	if d == nil {
+		return
+	}
+	pos := c17Pos(in) + "._input_string"
+	const store = "_input_strings_lines"
+	var split, drain, pop *gojq.Func
+	for _, c := range c17Calls(d.Def.Body, store, 1, false) {
+		a := c17Unparen(c.Args[0])
+		switch {
+		case c17S(a) == "[]":
+			drain = c
+		case len(c17Steps(a)) > 1:
+			split = c
+		case fw.JQIsCall(a, "", 0) != nil && strings.HasPrefix(fw.JQIsCall(a, "", 0).Name, "$"):
+			pop = c
+		}
+	}
+	if split == nil || drain == nil || pop == nil {
+		ru.Undecided("anchor:_input_string:writes", pos, "cannot find the three writes of "+store+" (split lines, drain for slurp, pop)")
+		return
+	}
+	// chunks: [_repeat_break(_input($opts; tobytes | tostring))] as $chunks
+	chunks := ""
+	for _, t := range c17AllBinds(d.Def.Body) {
+		if t.name != "" && c17IsIdentity(t.src) {
+			chunks = t.name
+		}
+	}
+	// split pipeline
+	st := c17Steps(split.Args[0])
+	var names []string
+	for _, s := range st {
+		if s.Bind != nil {
+			names = append(names, "<bind>")
+			continue
+		}
+		if f := fw.JQIsCall(s.Q, "", -1); f != nil {
+			arg := ""
+			if len(f.Args) == 1 {
+				if v, ok := fw.JQConstString(f.Args[0]); ok {
+					arg = "(" + strconv.Quote(v) + ")"
+				} else {
+					arg = "(?)"
+				}
+			} else if len(f.Args) > 1 {
+				arg = "(...)"
+			}
+			names = append(names, f.Name+arg)
+		} else {
+			names = append(names, c17S(s.Q))
+		}
+	}
+	got := strings.Join(names, " | ")
+	ru.Check(len(names) >= 1 && chunks != "" && names[0] == chunks, "lines:source", pos, "lines come from all chunks read ("+chunks+")", "the text split into lines is not the list of chunks read from the inputs: "+got)
+	ru.Check(len(names) == 4 && names[1] == `join("")`, "lines:join", pos, "chunks of all inputs are concatenated", "chunks are not concatenated with join(\"\") ahead of the line split: "+got)
+	ru.Check(len(names) == 4 && names[2] == `rtrimstr("\n")`, "lines:strip-one-newline", pos, "exactly one final newline is stripped",
+		"between joining and splitting the text must lose exactly one trailing \"\\n\" (rtrimstr(\"\\n\")) and nothing else — trailing blank lines and trailing blanks of the last line are data: "+got)
+	ru.Check(len(names) >= 1 && names[len(names)-1] == `split("\n")`, "lines:split", pos, "split at \"\\n\"", "lines are not produced by split(\"\\n\") as the last step: "+got)
+	// after storing the lines the first one is delivered through input itself
+	{
+		ok := false
+		for _, q := range c17AllQueries(d.Def.Body) {
+			s := c17Steps(q)
+			if len(s) == 2 && len(s[0].Bind) == 1 && fw.JQIsCall(s[0].Q, store, 1) == split && fw.JQIsCall(s[1].Q, "input", 0) != nil {
+				ok = true
+			}
+		}
+		ru.Check(ok, "lines:first", pos, "store the lines, then deliver through input", "after storing the split lines the first line is not delivered by re-entering input")
+	}
+	// iteration: [.[0], .[1:]] as [$h, $t] | store($t) | $h ; empty -> break
+	{
+		ok := false
+		brk := false
+		for _, q := range c17AllQueries(d.Def.Body) {
+			s := c17Steps(q)
+			if len(s) == 3 && len(s[0].Bind) == 1 && len(s[0].Bind[0].Array) == 2 && c17S(s[0].Q) == "[.[0], .[1:]]" {
+				h, t := s[0].Bind[0].Array[0].Name, s[0].Bind[0].Array[1].Name
+				if c := fw.JQIsCall(s[1].Q, store, 1); c == pop && s[1].Bind == nil && fw.JQIsCall(c.Args[0], t, 0) != nil && fw.JQIsCall(s[2].Q, h, 0) != nil {
+					ok = true
+				}
+			}
+			if i := c17IsIf(q); i != nil && c17S(i.Cond) == "length == 0" && fw.JQIsCall(i.Then, "error", 1) != nil && i.Else != nil && c17ContainsNode(i.Else, pop) {
+				brk = true
+			}
+		}
+		ru.Check(ok, "lines:next", pos, "head is delivered, tail stored back", "line iteration is not `[.[0], .[1:]] as [$h, $t] | "+store+"($t) | $h`")
+		ru.Check(brk, "lines:exhausted", pos, "no lines left -> break", "an exhausted line list does not raise the break token ahead of taking the head")
+	}
+	// slurp: drain then the joined chunks
+	{
+		ok := false
+		for _, q := range c17AllQueries(d.Def.Body) {
+			s := c17Steps(q)
+			if len(s) == 3 && fw.JQIsCall(s[0].Q, store, 1) == drain && len(s[0].Bind) == 1 && c17S(s[1].Q) == chunks && c17S(s[2].Q) == `join("")` {
+				ok = true
+			}
+		}
+		ru.Check(ok, "slurp:joined", pos, "-Rs: one string, next input breaks", "raw input with --slurp does not yield the chunks joined into one string after emptying the line list")
+	}
+}
+
+type c17BindSite struct {
+	name string
+	src  *gojq.Query
+}
+
+// c17AllBinds returns every "src as $name" under n.
+func c17AllBinds(n any) []c17BindSite {
+	var out []c17BindSite
+	fw.WalkJQ(n, func(x any) bool {
+		t, ok := x.(*gojq.Term)
+		if !ok || len(t.SuffixList) == 0 {
+			return true
+		}
+		b := t.SuffixList[len(t.SuffixList)-1].Bind
+		if b == nil || len(b.Patterns) != 1 {
+			return true
+		}
+		src := *t
+		src.SuffixList = t.SuffixList[:len(t.SuffixList)-1]
+		out = append(out, c17BindSite{b.Patterns[0].Name, &gojq.Query{Term: &src}})
+		return true
+	}, false)
+	return out
+}
+
+// c17AllQueries returns every query node under n.
+func c17AllQueries(n any) []*gojq.Query {
+	var out []*gojq.Query
+	fw.WalkJQ(n, func(x any) bool {
+		if q, ok := x.(*gojq.Query); ok {
+			out = append(out, q)
+		}
+		return true
+	}, false)
+	return out
+}
+
+// ---------------------------------------------------------------------------
+// per-input reset of input_filename (exported for other properties)
+
+// c17InputFilenameResetAs checks, under the given rule id, that _input clears _input_filename
+// before it opens the next input and sets it to the input's name only after a successful open,
+// so a failing open never leaves the previous input's name behind.
+func c17InputFilenameResetAs(r *fw.Run, p *fw.Program, ruleID string) {
+	ru := r.Rule(ruleID, "input: _input_filename is cleared (null) before the next input is opened and set to its name only after a successful open — no state of one input leaks into the next", 2)
+	jq, err := fw.LoadJQ(p.Repo)
+	if err != nil {
+		ru.Undecided("input_filename:anchor", "", "cannot load bundled jq sources: "+err.Error())
+		return
+	}
+	m := &c17Model{r: r, p: p, jq: jq, codes: map[string]string{}, stores: map[string]string{}}
+	c17InputFilenameReset(m, ru)
+}
+
+func c17InputFilenameReset(m *c17Model, ru *fw.Rule) {
+	in := m.def(ru, "input", 0)
+	if in == nil {
+		return
+	}
+	d := m.nested(ru, in, "_input", 2)
+	if d == nil {
+		return
+	}
+	pos := c17Pos(in) + "._input"
+	steps := c17Steps(d.Def.Body)
+	iOpen := -1
+	for i, s := range steps {
+		if t := c17IsTry(s.Q); t != nil && c17HasCall(t.Body, "open", 0) && iOpen < 0 {
+			iOpen = i
+		}
+	}
+	if iOpen < 0 {
+		ru.Undecided("input_filename:anchor", pos, "cannot find the protected open step of _input")
+		return
+	}
+	reset := false
+	for _, s := range steps[:iOpen] {
+		if c := fw.JQIsCall(s.Q, "_input_filename", 1); c != nil {
+			reset = c17IsNull(c.Args[0]) // the last write ahead of open decides
+		}
+	}
+	ru.Check(reset, "input_filename:reset-before-open", pos, "_input_filename(null) ahead of the open step",
+		"_input does not clear _input_filename before opening the next input: after an input that cannot be opened input_filename still names the previous input")
+	openT := c17IsTry(steps[iOpen].Q)
+	ob := c17Steps(openT.Body)
+	set, afterOpen := false, false
+	for i, s := range ob {
+		if i == 0 && fw.JQIsCall(s.Q, "open", 0) != nil {
+			afterOpen = true
+		}
+		if c := fw.JQIsCall(s.Q, "_input_filename", 1); c != nil && afterOpen && i > 0 && !c17IsNull(c.Args[0]) {
+			set = true
+		}
+	}
+	early := false
+	for _, s := range steps[:iOpen] {
+		if c := fw.JQIsCall(s.Q, "_input_filename", 1); c != nil && !c17IsNull(c.Args[0]) {
+			early = true
+		}
+	}
+	ru.Check(set && !early, "input_filename:set-after-open", pos, "name is set inside the open try, after open succeeded",
+		"_input_filename is not set to the input's name only after a successful open")
 }
